@@ -66,6 +66,24 @@ func NamedSpec(stream string, off map[string]bool, from, to uint64) Spec {
 			o.ServiceBias, o.GoAnns = true, true
 			return o
 		}
+	case "plug":
+		// service-heavy programs generated with the assertion plugin attached
+		s.Sem = func(i uint64, rng *core.Rand) idlm.SemOpts {
+			o := base(i, rng)
+			o.ServiceBias, o.GoAnns, o.ChainMode = true, rng.Chance(2, 3), rng.Chance(1, 3)
+			o.TypedefZoo = rng.Chance(2, 3)
+			return o
+		}
+		s.CLI = func(i uint64, rng *core.Rand) CLIOpts {
+			o := cli(i, rng)
+			o.OutputFile = ""
+			o.PerModule = rng.Chance(1, 3)
+			if o.PerModule {
+				o.InferRoot = false
+			}
+			o.Plugin = "verifassert"
+			return o
+		}
 	}
 	return s
 }
